@@ -62,7 +62,8 @@ class Model:
         self.generation = 0
         self.removed_names = []       # (ns, path) that existed and were removed (for re-add ops)
         self.dead_blobs = {}          # blob id -> Blob released (for conservation scans)
-        self.rr_moved_name = None
+        self.rr_moved_name = None      # what set_relocated_name() configured in this generation (takes effect when the directory is next created)
+        self.rr_moved_actual = None    # the names of the relocation directory that exists
 
     # -- helpers -------------------------------------------------------
     def _node(self, kind, **kw):
@@ -204,6 +205,8 @@ class Model:
 
     def rr_free(self, iso_parent, rrname):
         p = self.get('iso', iso_parent)
+        if iso_parent == '/' and rrname in self.reserved_root_names()[1]:
+            return False
         return p is not None and all(ch.rr != rrname for ch in p.children.values())
 
     # -- transitions ----------------------------------------------------------
@@ -245,7 +248,12 @@ class Model:
                     while phys in taken:
                         phys = name + '%03d' % idx
                         idx += 1
+                    had = any(n.reloc for _, n in self.iter_ns('iso') if n is not node)
                     node.reloc = phys
+                    if not had:
+                        # the relocation directory is created now, under the configured names or the default ones
+                        self.rr_moved_name = self.rr_moved_name or self.RR_MOVED
+                        self.rr_moved_actual = tuple(self.rr_moved_name)
 
     def op_rm_file(self, op):
         node = self.get(op['ns'], op['path'])
@@ -352,8 +360,19 @@ class Model:
     def op_set_relocated_name(self, op):
         self.rr_moved_name = (op['name'], op['rr'])
 
+    def moved_names(self):
+        return tuple(self.rr_moved_actual or self.RR_MOVED)
+
+    def reserved_root_names(self):
+        """(ISO9660 identifiers, Rock Ridge names) the relocation directory has or would get: not for the user's entries."""
+        pairs = [self.RR_MOVED, self.rr_moved_name, self.rr_moved_actual]
+        return {p_[0] for p_ in pairs if p_}, {p_[1] for p_ in pairs if p_}
+
     def op_restart(self, op):
         self.generation += 1
+        self.rr_moved_name = None         # not on the disc; an existing relocation directory keeps its names
+        if not self.rr_moved:
+            self.rr_moved_actual = None
         # Zero-length content has no location on disc, so an ISO9660/Joliet name
         # of it has no recorded tie to any other name: after a restart each such
         # name is a file of its own.  UDF names of one zero-length file share a
@@ -408,7 +427,7 @@ class Model:
         for comp in path.split('/')[1:]:
             node = node.children.get(comp) if node is not None and node.kind == 'dir' else None
             if node is not None and node.kind == 'dir' and node.reloc:
-                out = '/' + (self.rr_moved_name[0] if self.rr_moved_name else self.RR_MOVED[0]) + '/' + node.reloc
+                out = '/' + self.moved_names()[0] + '/' + node.reloc
             else:
                 out += '/' + comp
         return out
@@ -428,7 +447,7 @@ class Model:
         else:
             # the ISO9660 namespace shows the physical layout: relocated directories under the relocation directory,
             # a placeholder (a non-directory record) where the user put them
-            mv = '/' + (self.rr_moved_name[0] if self.rr_moved_name else self.RR_MOVED[0])
+            mv = '/' + self.moved_names()[0]
             v[mv] = ('dir', False, None)
             stack = [('/', self.roots['iso'])]
             while stack:
@@ -447,7 +466,7 @@ class Model:
         if self.rr:
             v = {'/': ('dir', None, None, None)}
             if self.rr_moved:
-                v['/' + (self.rr_moved_name[1] if self.rr_moved_name else self.RR_MOVED[1])] = ('dir', None, None, None)
+                v['/' + self.moved_names()[1]] = ('dir', None, None, None)
             stack = [('/', self.roots['iso'])]
             while stack:
                 p, n = stack.pop()
@@ -505,6 +524,8 @@ def _valid_new(m, ns, path, isdir=False):
     if ns == 'iso':
         base = name.split(';')[0]
         if any(k.split(';')[0] == base for k in p.children):
+            return False
+        if parent == '/' and m.rr and base.rstrip('.') in m.reserved_root_names()[0]:
             return False
         if not (m.rr or m.cfg['level'] == 4):
             if m.depth(path) > 7:
@@ -669,5 +690,10 @@ def valid(m, op):
     if k == 'new_again':
         return False
     if k == 'set_relocated_name':
-        return bool(m.rr) and m.rr_moved_name is None
+        if not m.rr or m.rr_moved_name is not None or m.cfg['level'] == 4:
+            return False
+        root = m.roots['iso']
+        if any(k.split(';')[0].rstrip('.') == op['name'] for k in root.children) or any(ch.rr == op['rr'] for ch in root.children.values()):
+            return False
+        return True
     return True
